@@ -4,6 +4,7 @@
 #   service VerifService {
 #     string echo(1: string s), i64 add(1: i32 a, 2: i64 b), Pair swap(1: Pair p),
 #     string lock(1: string key, 2: i32 timeout), string tail(1: string s), oneway void notify(1: string s),
+#     string concat(2: string first, 1: string second),      // a parameter added in front later: ids not ascending
 #     bool flag(1: bool b, 2: double d), void ping(),
 #     string fail(1: string why) throws (1: VerifError err),
 #     void vfail(1: string why) throws (1: VerifError err),
@@ -30,6 +31,9 @@ class Iface(object):
         pass
 
     def tail(self, s):
+        pass
+
+    def concat(self, first, second):
         pass
 
     def notify(self, s):
@@ -65,6 +69,7 @@ class Processor(Iface, TProcessor):
         self._processMap["add"] = Processor.process_add
         self._processMap["lock"] = Processor.process_lock
         self._processMap["tail"] = Processor.process_tail
+        self._processMap["concat"] = Processor.process_concat
         self._processMap["notify"] = Processor.process_notify
         self._processMap["swap"] = Processor.process_swap
         self._processMap["flag"] = Processor.process_flag
@@ -194,6 +199,29 @@ class Processor(Iface, TProcessor):
             msg_type = TMessageType.EXCEPTION
             result = TApplicationException(TApplicationException.INTERNAL_ERROR, 'Internal error')
         oprot.writeMessageBegin("lock", msg_type, seqid)
+        result.write(oprot)
+        oprot.writeMessageEnd()
+        oprot.trans.flush()
+
+    def process_concat(self, seqid, iprot, oprot):
+        args = concat_args()
+        args.read(iprot)
+        iprot.readMessageEnd()
+        result = concat_result()
+        try:
+            result.success = self._handler.concat(args.first, args.second)
+            msg_type = TMessageType.REPLY
+        except TTransport.TTransportException:
+            raise
+        except TApplicationException as ex:
+            logging.exception('TApplication exception in handler')
+            msg_type = TMessageType.EXCEPTION
+            result = ex
+        except Exception:
+            logging.exception('Unexpected exception in handler')
+            msg_type = TMessageType.EXCEPTION
+            result = TApplicationException(TApplicationException.INTERNAL_ERROR, 'Internal error')
+        oprot.writeMessageBegin("concat", msg_type, seqid)
         result.write(oprot)
         oprot.writeMessageEnd()
         oprot.trans.flush()
@@ -499,6 +527,35 @@ class lock_result(TBase):
 
 all_structs.append(lock_result)
 lock_result.thrift_spec = (
+    (0, TType.STRING, 'success', 'UTF8', None, ),  # 0
+)
+
+
+class concat_args(TBase):
+    __slots__ = ('first', 'second')
+
+    def __init__(self, first=None, second=None):
+        self.first = first
+        self.second = second
+
+
+all_structs.append(concat_args)
+concat_args.thrift_spec = (
+    None,  # 0
+    (1, TType.STRING, 'second', 'UTF8', None, ),  # 1
+    (2, TType.STRING, 'first', 'UTF8', None, ),  # 2
+)
+
+
+class concat_result(TBase):
+    __slots__ = ('success',)
+
+    def __init__(self, success=None):
+        self.success = success
+
+
+all_structs.append(concat_result)
+concat_result.thrift_spec = (
     (0, TType.STRING, 'success', 'UTF8', None, ),  # 0
 )
 
